@@ -1,7 +1,7 @@
 //@ item: integer/src/modular/div.rs :: inv_large
 // FUNCTIONAL + RESOURCE: the annotations of annot/integer/modular2/inv_large.rs (unit int_moddiv) plus: the allocation made from
 // gcd::memory_requirement_ext_exact(|modulus|, raw_len) provides the ext_need(|modulus|) Words that gcd_ext_in_place asks for
-// (true only with the repair proposed_fixes/MEM2: this is the call site where that defect shows).
+// (true only since the repair 914fd28: this is the call site where that defect showed).
 fn inv_large(ring: &ConstLargeDivisor, mut raw: ReducedLarge) -> Option<ReducedLarge>
 /*@
     #[box_slice(raw.0)]
